@@ -151,6 +151,11 @@ def m_replay(prop, o):
                            capture_output=True, text=True, timeout=120)
         bad = "MISMATCH" in r.stdout or r.returncode < 0
         return dict(confirmed=bad, how=(r.stdout.strip()[-300:] or "signal %d" % -r.returncode))
+    if prop == "C12" and "model" in o:
+        m = o["model"]
+        r = subprocess.run([exe, "--m-c12", o["id"].split(".")[-1], m["orig_bits"], m["max_bits"], m["r_bits"]],
+                           capture_output=True, text=True, timeout=120)
+        return dict(confirmed="MISMATCH" in r.stdout, how=r.stdout.strip()[-300:])
     if prop == "C03" and o.get("region") == "oversampling_1":
         # the leaf deviation is reachable through the public API: the Kani harness of the same region, natively
         h = "c03_sfo_os1_cubic" if o["id"].endswith("_4") else "c03_sfo_os1_quadratic"
